@@ -15,7 +15,7 @@ import math
 from dataclasses import dataclass
 from typing import Optional
 
-from ..model import AnalysisError, dotted, last_attr, norm_text
+from ..model import AnalysisError, dotted, last_attr, norm_text, walk_no_nested
 
 MOD = "abtem.transfer"
 TOL = 1e-9
@@ -593,3 +593,85 @@ def run(ctx) -> None:
         if inv.kind == "const":
             ctx.violation("R-HARMONIC", f"{MOD}:constant {sym}", c2p.loc(st),
                           f"{sym} is rebuilt as the constant {inv.scale:g}", key_detail="const")
+
+
+# ---- added after the seeded change C22-r4seed0: every conversion returns a mapping of its own
+_inner_run_c22 = run
+
+_FRESH_MAPPING_CALLS = {"dict", "defaultdict", "OrderedDict"}
+
+
+def _fresh_mapping(v: ast.AST) -> bool:
+    if isinstance(v, (ast.Dict, ast.DictComp)):
+        return True
+    if isinstance(v, ast.Call) and (last_attr(v) or dotted(v.func) or "") in _FRESH_MAPPING_CALLS:
+        return True
+    if isinstance(v, ast.Call) and isinstance(v.func, ast.Attribute) and v.func.attr == "copy" and not v.args:
+        return True
+    if isinstance(v, ast.Call) and dotted(v.func) in ("copy.copy", "copy.deepcopy", "copy", "deepcopy"):
+        return True
+    return False
+
+
+def _mutable_default(d: ast.AST) -> bool:
+    return isinstance(d, (ast.Dict, ast.List, ast.Set, ast.DictComp, ast.ListComp)) or (
+        isinstance(d, ast.Call) and (last_attr(d) or dotted(d.func) or "") in _FRESH_MAPPING_CALLS | {"list", "set"})
+
+
+def _fresh_result(ctx, f) -> None:
+    from ..cfg import DataFlow
+
+    df = DataFlow(f.node)
+    a = f.node.args
+    pos = a.posonlyargs + a.args
+    defaults = dict(zip([x.arg for x in pos[len(pos) - len(a.defaults):]], a.defaults))
+    defaults.update({x.arg: d for x, d in zip(a.kwonlyargs, a.kw_defaults) if d is not None})
+    rets = [r for r in walk_no_nested(f.node) if isinstance(r, ast.Return) and r.value is not None]
+    ctx.require(bool(rets), f"{f.qualname}: no return")
+    for r in rets:
+        problems = []
+
+        def origins(e, at, depth=0):
+            if depth > 10:
+                raise AnalysisError(f"{f.qualname}: definitions of the returned mapping are too deep")
+            if _fresh_mapping(e):
+                return
+            if isinstance(e, ast.Name):
+                rd = df.reaching(at, e.id)
+                if not rd:
+                    problems.append(f"`{e.id}` is not defined in the function (a module-level object shared by all calls)")
+                for d in rd:
+                    if d.kind == "param":
+                        if e.id in defaults and _mutable_default(defaults[e.id]):
+                            problems.append(f"the default value of parameter `{e.id}` (`{norm_text(defaults[e.id])}`), "
+                                            "one object created at definition time and shared by all calls")
+                        # a mapping handed in by the caller is the caller's own business
+                    elif d.kind == "assign" and d.value is not None:
+                        origins(d.value, d.node, depth + 1)
+                    elif d.kind in ("store", "aug", "call"):
+                        continue  # writes into the mapping, not a rebinding
+                    else:
+                        raise AnalysisError(f"{f.qualname}: returned mapping defined by a {d.kind}")
+                return
+            if isinstance(e, ast.IfExp):
+                origins(e.body, at, depth + 1)
+                origins(e.orelse, at, depth + 1)
+                return
+            raise AnalysisError(f"{f.qualname}: returned mapping `{norm_text(e)[:50]}` of unknown origin")
+
+        origins(r.value, df.cfg.node_of(r).idx)
+        ctx.check(not problems, "R-FRESHRESULT", f"{f.qualname}:returned mapping", f.loc(r),
+                  "the returned mapping is created inside the call on every path",
+                  "the returned mapping can be " + "; ".join(problems) + ": the next conversion overwrites the "
+                  "coefficients of every result returned before, so a round-tripped set kept while another one is "
+                  "converted no longer reproduces chi", key_detail="fresh")
+
+
+def run(ctx) -> None:  # noqa: F811
+    ctx.rule("R-FRESHRESULT", "the mapping a conversion returns is created inside that call (dict()/{}/a copy) on every "
+             "path: reaching definitions of the returned name are followed back; a parameter whose default is a "
+             "mutable object, or a module-level mapping, is one object shared by all calls — each call is right on its "
+             "own, but a later conversion rewrites the coefficients held by earlier results")
+    for name in ("polar2cartesian", "cartesian2polar"):
+        _fresh_result(ctx, ctx.repo.function(MOD, name))
+    _inner_run_c22(ctx)
